@@ -272,6 +272,8 @@ def run_case(args):
         log = os.path.join(wd, "vg.log")
         argv = ["valgrind", "--error-exitcode=0", "--log-file=" + log, "--track-origins=no", "--num-callers=20", exe, "--config", "/dev/null"] + prog.to_args(run)
         res = core.run_cmd(argv, cwd=wd, env={"XDG_DATA_HOME": xdg, "HOME": wd}, timeout=1800)
+        if res["hang"]:
+            res = core.run_cmd(argv, cwd=wd, env={"XDG_DATA_HOME": xdg, "HOME": wd}, timeout=3600)
         res["argv"] = argv
         out["cmd"] = " ".join(argv)
         try:
